@@ -52,9 +52,12 @@ def op_transfer(w: World, op: dict):
 
     try:
         try:
-            res = transfer(src_odb, dst_odb, set(_his(w, op["req"])), shallow=op["shallow"],
-                           verify=bool(op.get("verify")), dest_index=index, src_index=src_index, validate_status=on_status,
-                           jobs=op.get("jobs"))
+            if op.get("via") == "index":
+                res = _index_push(w, op, src_odb, dst_odb, on_status)
+            else:
+                res = transfer(src_odb, dst_odb, set(_his(w, op["req"])), shallow=op["shallow"],
+                               verify=bool(op.get("verify")), dest_index=index, src_index=src_index,
+                               validate_status=on_status, jobs=op.get("jobs"))
         finally:
             w.xfer_active = False
             if index is not None:
@@ -72,6 +75,52 @@ def op_transfer(w: World, op: dict):
     if began.get("new"):
         w.emit({"op": "TransferEnd"},
                {"op": "transfer", "transferred": w.ids(res.transferred), "failed": w.ids(res.failed)})
+
+
+def _index_push(w: World, op: dict, src_odb, dst_odb, on_status):
+    """The same push asked through dvc_data.index.push: a data index whose entries are the requested directories (their
+    files come from loading the directory objects out of the cache) and the requested files no directory lists; the cache
+    and the remote are the index's storages.  What the index hands to transfer() is the closed request of the spec."""
+    import dvc_data.index.push as ipush
+    from dvc_data.hashfile.meta import Meta
+    from dvc_data.index import DataIndex, DataIndexEntry, ObjectStorage
+
+    idx = DataIndex()
+    listed = {f for d in op["req"] if d in w.uni.dirs for f in w.uni.dirs[d]}
+    for x in sorted(op["req"]):
+        if x in w.uni.dirs:
+            idx[(x,)] = DataIndexEntry(key=(x,), meta=Meta(isdir=True), hash_info=w.uni.hash_info(x, "md5"))
+            if op.get("entries") == "explicit":
+                # (an index that was loaded before - as the one dvc builds from its lock files - lists the files itself)
+                for rel, f in w.uni.relpaths[x].items():
+                    key = (x, *rel.split("/"))
+                    idx[key] = DataIndexEntry(key=key, meta=Meta(), hash_info=w.uni.hash_info(f, "md5"))
+                idx[(x,)].loaded = True
+        elif x not in listed:
+            idx[(x,)] = DataIndexEntry(key=(x,), meta=Meta(), hash_info=w.uni.hash_info(x, "md5"))
+    idx.storage_map.add_cache(ObjectStorage((), src_odb))
+    idx.storage_map.add_data(ObjectStorage((), dst_odb))
+    got = {}
+    real = ipush.transfer
+
+    def spy(*a, **kw):
+        theirs = kw.get("validate_status")
+
+        def both(status):
+            on_status(status)
+            if theirs:
+                theirs(status)
+
+        kw["validate_status"] = both
+        got["res"] = real(*a, **kw)
+        return got["res"]
+
+    ipush.transfer = spy
+    try:
+        ipush.push([idx], jobs=op.get("jobs"))
+    finally:
+        ipush.transfer = real
+    return got["res"]
 
 
 def op_add(w: World, op: dict):
@@ -293,6 +342,17 @@ def stale_cases(rng: random.Random, limit: int, closed_only: bool = False) -> li
             ops += [again, again]
         ops.append({"op": "Status", "s": "remote", "ids": c["r1"], "shallow": False, "idx": True})
         cases.append({"init": c["init"], "ops": ops, "kind": "stale", "useed": len(cases) % 3})
+    return cases
+
+
+def index_push_cases(rng: random.Random, limit: int) -> list[dict]:
+    """Pushes asked through a data index (dvc_data.index.push) from a partially filled cache, and their retry."""
+    cases = []
+    for c in _sample(tlc_generate("ipush")["ipush"], limit, rng):
+        how = ("lazy", "explicit")[len(cases) % 2]
+        first = xfer_op(c, via="index", entries=how)
+        cases.append({"init": c["init"], "ops": [first, xfer_op(c, via="index", entries=how, F=[])], "kind": "index-push",
+                      "useed": len(cases) % 3})
     return cases
 
 
@@ -540,6 +600,7 @@ def check_C04(run: core.Run, replay=None):
         cases = transfer_cases(gen, rng, quick)
         cases += sim_cases("ObjectStore_sim_xfer.cfg", 150 if quick else 1500, 24, run.seed + 1)
         cases += stale_cases(rng, 400 if quick else 10**9, closed_only=True)
+        cases += index_push_cases(rng, 300 if quick else 10**9)
         run.extra["generated_cases"] = {k: len(v) for k, v in gen.items()}
     traces = execute(cases, run.seed)
     return _finish(run, traces,
@@ -573,6 +634,7 @@ def check_C11(run: core.Run, replay=None):
         cases += sim_cases("ObjectStore_sim_xfer.cfg", 100 if quick else 1000, 24, run.seed + 2)
         cases += stale_cases(rng, 300 if quick else 10**9)
         cases += damaged_local_cases()
+        cases += index_push_cases(rng, 200 if quick else 10**9)
         run.extra["generated_cases"] = {**{k: len(v) for k, v in gen.items()}, **{k: len(v) for k, v in gx.items()}}
     traces = execute(cases, run.seed)
     return _finish(run, traces,
